@@ -639,6 +639,29 @@ def corpus_cases():
 CASE_KEYS = ("env", "acts", "specs", "delim", "product", "force", "noaction", "oldenv", "aliases", "oldaliases")
 
 
+def exhaustive_cases(maxlen, delims):
+    """Every prior list over {a, b, x, empty} up to maxlen elements x value in {a, x, a<d>b, x<d>a} x prepend/append x
+    setup/unsetup x the four leading/trailing-delimiter flags: the small end of the property's quantifier, completely."""
+    import itertools
+    out = []
+    for delim in delims:
+        for n in range(maxlen + 1):
+            for old in itertools.product(["a", "b", "x", ""], repeat=n):
+                oldv = None if n == 0 else delim.join(old)
+                for vals in (["a"], ["x"], ["a", "b"], ["x", "a"]):
+                    for op in ("prepend", "append"):
+                        for fwd in (True, False):
+                            for pre, app in ((False, False), (True, False), (False, True), (True, True)):
+                                if (pre or app) and not fwd:
+                                    continue
+                                text = (delim if pre else "") + delim.join(vals) + (delim if app else "")
+                                den = ("elems", vals) if len(vals) == 1 else ("multi", vals)
+                                env = {} if oldv is None else {"V": oldv}
+                                out.append({"env": env, "acts": [{"op": op, "fwd": fwd, "var": "V", "value": text, "delim": delim}],
+                                            "specs": [{"den": den, "pre": pre, "app": app}], "delim": delim, "roundtrip": False})
+    return out
+
+
 def evaluate(ctx, cases):
     nw = 4
     chunks = [cases[i::nw] for i in range(nw)]
@@ -681,6 +704,9 @@ def run(ctx):
     n = ctx.n(40000, 400000)
     batch = 4000
     evaluate(ctx, cases)
+    ex = exhaustive_cases(*ctx.n((3, [":"]), (4, [":", "::", "|"])))
+    ctx.hist("exhaustive", len(ex))
+    evaluate(ctx, ex)
     done = 0
     while done < n and not ctx.out_of_time():
         k = min(batch, n - done)
